@@ -80,16 +80,6 @@ Definition stores_in_table (c : card) : bool :=
   | _ => false
   end.
 
-Definition zero_hash (s : str) : bool := negb (is_empty s) && (handle_of_bytes s =? 0).
-Definition var_head (v : str) : str := match split_once_c c_dot v with Some (v0, _) => v0 | None => v end.
-(* a name that the compiler or the VM hashes into a Handle and whose FNV-1a-32 hash is 0 (finding N-C04-1) *)
-Definition zero_name (c : card) : bool :=
-  match c with
-  | CReadVar n | CSetVar n _ => zero_hash (var_head n)
-  | CSetGlobalVar n _ | CCallNative n _ | CNativeFunction n => zero_hash n
-  | _ => false
-  end.
-
 (* ------------------------------------------------------------------ model *)
 Definition model_applies (m : module) (o : options) : bool :=
   C10Check.module_in_domain m && program_in_range m o.
@@ -108,33 +98,17 @@ Definition is_hang (x : xstat) : bool := match x with XHang => true | _ => false
 
 (* known classes:
    10  A-37: ==, hashing of a table that contains itself recurses until the native stack overflows
-   11  N-C04-1: a variable / native name whose FNV-1a hash is 0 (debug_assert in Handle::from_bytes; in release
-       builds HandleTable::entry(Handle(0)) hands out an uninitialised slot: the program compiles with a garbage
-       variable id and SetGlobalVar then resizes the globals vector to that id - observed as a hang of `run`)
-   12  N-C04-2: a card whose index path hashes to 0 (debug_assert in CardIndex::sub_handle), debug builds
-   13  N-C04-3: a closure whose label handle is 0: labels.insert(Handle(0)).unwrap() panics in every build
    14  card / module nesting deeper than any loader admits (built in the worker): native stack overflow in
        compile or drop - outside the property's domain (DESIGN section 9)
-   15  N-C04-4: RuntimeData::new(_, 0, _) panics (ValueStack::new asserts size > 0) instead of returning Err *)
+   The former classes 11 (N-C04-1, a name with FNV-1a hash 0), 12 (N-C04-2, a card index path with hash 0),
+   13 (N-C04-3, a closure label 0) and 15 (N-C04-4, RuntimeData::new(_, 0, _) panicked) were repaired in the
+   crate (3f22e7c "handles are never 0", 74a8f02): such cases are ordinary violations now. *)
 Definition known_of_module (m : module) (limit : N) (debug : bool) (cfg : option rcfg_t) (o : wobs_t) (mismatch : bool)
   : list N :=
-  let crash := is_crash (w_exit o) in
-  let opts d := {| o_recursion_limit := limit; o_debug := d |} in
-  if module_any zero_name m && (crash || mismatch) then [11]
-  else if crash && (w_stage o =? 2) && is_panic (w_exit o) && model_applies m (opts debug) then
-    match compile m (opts debug), compile m (opts false) with
-    | CPanic, CPanic => [13]
-    | CPanic, _ => [12]
-    | _, _ => []
-    end
-  else if is_signal (w_exit o) && ((w_stage o =? 4) || (w_stage o =? 5)) && module_any stores_in_table m then [10]
+  if is_signal (w_exit o) && ((w_stage o =? 4) || (w_stage o =? 5)) && module_any stores_in_table m then [10]
   else [].
 
-Definition known_of_cfg (cfg : option rcfg_t) (o : wobs_t) : list N :=
-  match cfg with
-  | Some c => if (c_stack c =? 0) && is_panic (w_exit o) && (w_stage o =? 3) then [15] else []
-  | None => []
-  end.
+Definition known_of_cfg (cfg : option rcfg_t) (o : wobs_t) : list N := [].
 
 (* exhaustion is an error value (implementation side of exhaustion_is_error): budget 0 -> Timeout at once,
    no call frame available -> CallStackOverflow *)
@@ -142,8 +116,11 @@ Definition spec_cfg (cfg : option rcfg_t) (o : wobs_t) : list N :=
   match cfg, w_exit o with
   | Some c, XOk =>
       match w_run o with
-      | VNone | VNewErr _ => []
+      | VNone => []
+      | VNewErr _ => []
       | r =>
+          (* 74a8f02: a value stack of size 0 is reported by RuntimeData::new as an error value *)
+          (if (c_stack c =? 0) then [2] else []) ++
           (if (c_calls c =? 0) then
              match r with VErr e => if e =? e_call_stack_overflow then [] else [2] | _ => [2] end
            else if (c_budget c =? 0) then
